@@ -1,3 +1,4 @@
 import Mamba.Basic
 import Mamba.Proto
 import Mamba.Drv.All
+import Mamba.Props.C18
